@@ -464,7 +464,113 @@ def tr_dep_lt(tree):
             + "\n".join(lets) + "\n  " + truth(ret.value) + ".")
 
 
-HEADER = """(* GENERATED by vlib/translator/leaf.py from /repo/src/ovld/{mro,typemap,dependent}.py on every run -- do not edit.
+# ---- DependentType.__type_order__ (dependent.py): the decision tree, over the results of the calls it makes ------------
+def _order_chain(stmts, cond, ret):
+    """a chain of if / elif / else statements each ending in `return <order>` -> nested Coq if-expression"""
+    def go(b):
+        if len(b) == 1 and isinstance(b[0], ast.Return):
+            return ret(b[0].value)
+        if len(b) >= 1 and isinstance(b[0], ast.If):
+            i = b[0]
+            els = i.orelse if i.orelse else b[1:]
+            if not els:
+                raise Unsupported("if without else")
+            return f"(if {cond(i.test)} then {go(i.body)} else {go(els)})"
+        raise Unsupported("statement " + ast.unparse(b[0])[:60])
+    return go(stmts)
+
+
+def tr_dep_order(tree):
+    """-> dep_order_src (odep : bool) (bo : order) (lt gt s1 s2 : bool) : order
+       odep = isinstance(other, DependentType), bo = typeorder(self.bound, other.bound), lt = self < other, gt = other < self,
+       s1 = subclasscheck(other, self.bound), s2 = subclasscheck(self.bound, other)"""
+    fn = _find(tree, "DependentType", "__type_order__")
+    ATOMS = {"isinstance(other, DependentType)": "odep", "self < other": "lt", "other < self": "gt", "other > self": "lt", "self > other": "gt",
+             "subclasscheck(other, self.bound)": "s1", "subclasscheck(self.bound, other)": "s2"}
+    ovar = [None]
+
+    def cond(e):
+        src = ast.unparse(e)
+        if src in ATOMS:
+            return ATOMS[src]
+        if isinstance(e, ast.Compare) and len(e.ops) == 1 and isinstance(e.left, ast.Name) and e.left.id == ovar[0]:
+            c = order_const(e.comparators[0])
+            if isinstance(e.ops[0], (ast.Is, ast.Eq)):
+                return f"order_eqb bo {c}"
+            if isinstance(e.ops[0], (ast.IsNot, ast.NotEq)):
+                return f"negb (order_eqb bo {c})"
+        if isinstance(e, ast.BoolOp):
+            return "(" + (" && " if isinstance(e.op, ast.And) else " || ").join(cond(v) for v in e.values) + ")"
+        if isinstance(e, ast.UnaryOp) and isinstance(e.op, ast.Not):
+            return "negb (" + cond(e.operand) + ")"
+        raise Unsupported("condition " + src[:60])
+
+    def ret(e):
+        if isinstance(e, ast.Name) and e.id == ovar[0]:
+            return "bo"
+        return order_const(e)
+
+    def strip(b):
+        out = []
+        for st in b:
+            if isinstance(st, ast.Expr) and isinstance(st.value, ast.Constant):
+                continue
+            if isinstance(st, ast.Assign) and ast.unparse(st.value) == "typeorder(self.bound, other.bound)" and len(st.targets) == 1 and isinstance(st.targets[0], ast.Name):
+                ovar[0] = st.targets[0].id
+                continue
+            if isinstance(st, ast.If):
+                st = ast.If(test=st.test, body=strip(st.body), orelse=strip(st.orelse))
+            out.append(st)
+        return out
+    return ("Definition dep_order_src (odep : bool) (bo : order) (lt gt s1 s2 : bool) : order :=\n  "
+            + _order_chain(strip(fn.body), cond, ret) + ".")
+
+
+def _tr_member_order(tree, cls, name):
+    """Union / Intersection .__type_order__ (types.py): the list of the members' comparisons with the other type, NONE
+    answers dropped, then an if-chain over that list -> <name> (cmp : list order) : order   (cmp: the non-NONE answers)"""
+    fn = _find(tree, cls, "__type_order__")
+    body = [st for st in fn.body if not (isinstance(st, ast.Expr) and isinstance(st.value, ast.Constant))]
+    # the guard for the bare class object (`other is Union`), outside the model
+    if isinstance(body[0], ast.If) and ast.unparse(body[0].test) == f"other is {cls}" and not body[0].orelse:
+        body = body[1:]
+    pre = [ast.unparse(x) for x in body[:2]]
+    if pre != ["classes = self.types", "compare = [x for t in classes if (x := typeorder(t, other)) is not Order.NONE]"]:
+        raise Unsupported("statements before the chain: " + "; ".join(pre)[:120])
+
+    def elem(e):          # a condition on one element x of compare
+        if isinstance(e, ast.Compare) and len(e.ops) == 1 and isinstance(e.left, ast.Name) and e.left.id == "x":
+            c = order_const(e.comparators[0])
+            if isinstance(e.ops[0], (ast.Is, ast.Eq)):
+                return f"order_eqb x {c}"
+            if isinstance(e.ops[0], (ast.IsNot, ast.NotEq)):
+                return f"negb (order_eqb x {c})"
+        if isinstance(e, ast.BoolOp):
+            return "(" + (" && " if isinstance(e.op, ast.And) else " || ").join(elem(v) for v in e.values) + ")"
+        if isinstance(e, ast.UnaryOp) and isinstance(e.op, ast.Not):
+            return "negb (" + elem(e.operand) + ")"
+        raise Unsupported("element condition " + ast.unparse(e)[:60])
+
+    def cond(e):
+        src = ast.unparse(e)
+        if src == "not compare":
+            return "(match cmp with [] => true | _ => false end)"
+        if src == "compare":
+            return "(match cmp with [] => false | _ => true end)"
+        if isinstance(e, ast.Call) and isinstance(e.func, ast.Name) and e.func.id in ("any", "all") and len(e.args) == 1 \
+                and isinstance(e.args[0], ast.GeneratorExp) and len(e.args[0].generators) == 1:
+            g = e.args[0].generators[0]
+            if ast.unparse(g.target) == "x" and ast.unparse(g.iter) == "compare" and not g.ifs:
+                return f"({'existsb' if e.func.id == 'any' else 'forallb'} (fun x => {elem(e.args[0].elt)}) cmp)"
+        if isinstance(e, ast.BoolOp):
+            return "(" + (" && " if isinstance(e.op, ast.And) else " || ").join(cond(v) for v in e.values) + ")"
+        if isinstance(e, ast.UnaryOp) and isinstance(e.op, ast.Not):
+            return "negb (" + cond(e.operand) + ")"
+        raise Unsupported("condition " + src[:60])
+    return f"Definition {name} (cmp : list order) : order :=\n  " + _order_chain(body[2:], cond, order_const) + "."
+
+
+HEADER = """(* GENERATED by vlib/translator/leaf.py from /repo/src/ovld/{mro,typemap,dependent,types}.py on every run -- do not edit.
    Proofs/LeafAgree.v proves these equal to the hand-written definitions the model uses. *)
 From Coq Require Import ZArith List Bool Arith.
 Import ListNotations.
@@ -486,6 +592,9 @@ FALLBACK = {
     "pull": "Definition grp_src (kept rest : list cand) : list cand := grp kept rest.",
     "missing": "Definition missing_code_src (foreign remembered stored : bool) : code_action := code_action_of foreign remembered stored.",
     "dep_lt": "Definition dep_lt_src (fa fb : list bool) : bool := if Nat.eqb (length fa) (length fb) then negb (Nat.eqb (count2 (fun x y => y && negb x) fa fb) 0) && Nat.eqb (count2 (fun x y => x && negb y) fa fb) 0 else false.",
+    "dep_order": "Definition dep_order_src (odep : bool) (bo : order) (lt gt s1 s2 : bool) : order := dep_decide odep bo lt gt s1 s2.",
+    "union_order": "Definition union_order_src (cmp : list order) : order := match cmp with [] => NONE | _ => if existsb ge_same cmp then MORE else LESS end.",
+    "inter_order": "Definition inter_order_src (cmp : list order) : order := match cmp with [] => NONE | _ => if existsb le_same cmp then LESS else MORE end.",
     "tail": "Definition cls_tail_src (s12 s21 : bool) : order := if s12 && s21 then SAME else if s12 then LESS else if s21 then MORE else NONE.",
 }
 
@@ -497,8 +606,9 @@ def regenerate():
         mro_tree = ast.parse(open(os.path.join(REPO_SRC, "ovld", "mro.py")).read())
         tm_tree = ast.parse(open(os.path.join(REPO_SRC, "ovld", "typemap.py")).read())
         dep_tree = ast.parse(open(os.path.join(REPO_SRC, "ovld", "dependent.py")).read())
+        ty_tree = ast.parse(open(os.path.join(REPO_SRC, "ovld", "types.py")).read())
     except Exception as e:  # noqa
-        mro_tree = tm_tree = dep_tree = None
+        mro_tree = tm_tree = dep_tree = ty_tree = None
         notes["parse"] = f"not translated: {e}"
     jobs = [("opposite", lambda: tr_opposite(_find(mro_tree, "Order", "opposite"))),
             ("merge", lambda: tr_merge(_find(mro_tree, "Order", "merge"))),
@@ -508,7 +618,10 @@ def regenerate():
             ("pull", lambda: tr_pull(tm_tree)),
             ("tail", lambda: tr_tail(mro_tree)),
             ("missing", lambda: tr_missing(tm_tree)),
-            ("dep_lt", lambda: tr_dep_lt(dep_tree))]
+            ("dep_lt", lambda: tr_dep_lt(dep_tree)),
+            ("dep_order", lambda: tr_dep_order(dep_tree)),
+            ("union_order", lambda: _tr_member_order(ty_tree, "Union", "union_order_src")),
+            ("inter_order", lambda: _tr_member_order(ty_tree, "Intersection", "inter_order_src"))]
     ok = True
     for name, job in jobs:
         try:
